@@ -75,8 +75,9 @@ def variants_c15(s, rng, k, force_id=False):
     out = []
     for v in range(k):
         if v < 3:
-            r = {"spelling": ["id", "alias", "mixed"][v] if not force_id else "id", "shuffle": False, "descriptive": False, "seed": rng.randrange(1 << 30), "renumbered": False}
-            out.append((s, S.render(s, random.Random(r["seed"]), r["spelling"], False, False), r))
+            r = {"spelling": ["id", "alias", "mixed"][v] if not force_id else "id", "shuffle": False, "descriptive": False, "seed": rng.randrange(1 << 30), "renumbered": False,
+                 "numeric_names": v == 2}
+            out.append((s, S.render(s, random.Random(r["seed"]), r["spelling"], False, False, r["numeric_names"]), r))
         else:
             s2 = renumber(s, rng)
             r = {"spelling": "mixed" if not force_id else "id", "shuffle": False, "descriptive": False, "seed": rng.randrange(1 << 30), "renumbered": True}
